@@ -24,6 +24,18 @@ var knownAPI = map[string]bool{
 
 var mainType = map[string]string{"20": "CVSS20", "30": "CVSS30", "31": "CVSS31", "40": "CVSS40"}
 
+// objParam: a parameter of the version's own object type (T or *T).
+func objParam(t types.Type, d string) (ptr, ok bool) {
+	if p, isPtr := t.(*types.Pointer); isPtr {
+		t, ptr = p.Elem(), true
+	}
+	n, isNamed := t.(*types.Named)
+	if !isNamed || n.Obj().Pkg() == nil || n.Obj().Name() != mainType[d] || !strings.HasSuffix(n.Obj().Pkg().Path(), "/"+d) {
+		return false, false
+	}
+	return ptr, true
+}
+
 func basicConv(t types.Type, arg string) (string, bool) {
 	if it, ok := t.Underlying().(*types.Interface); ok && it.Empty() {
 		return "extraAny(&in, " + arg + ")", true // string, caller-owned []byte, number or nil
@@ -31,6 +43,11 @@ func basicConv(t types.Type, arg string) (string, bool) {
 	if sl, ok := t.Underlying().(*types.Slice); ok {
 		if eb, ok := sl.Elem().Underlying().(*types.Basic); ok && eb.Kind() == types.Byte {
 			return "extraBytes(&in, " + arg + ")", true // a fresh buffer owned by the caller
+		}
+		if eb, ok := sl.Elem().(*types.Basic); ok && eb.Kind() == types.String {
+			if _, plain := t.(*types.Slice); plain {
+				return "extraStrs(" + arg + ")", true // a batch
+			}
 		}
 		return "", false
 	}
@@ -74,7 +91,19 @@ func genExtraAPI(pkgs map[string]*types.Package) (string, int) {
 				return
 			}
 			var args, kinds []string
+			nObj := 0
 			for i := 0; i < sig.Params().Len(); i++ {
+				if ptr, ok := objParam(sig.Params().At(i).Type(), d); ok {
+					if ptr {
+						args = append(args, fmt.Sprintf("(*%s.%s)(objs[%d])", alias, mainType[d], nObj))
+						kinds = append(kinds, "objptr")
+					} else {
+						args = append(args, fmt.Sprintf("*(*%s.%s)(objs[%d])", alias, mainType[d], nObj))
+						kinds = append(kinds, "obj")
+					}
+					nObj++
+					continue
+				}
 				c, ok := basicConv(sig.Params().At(i).Type(), fmt.Sprintf("a[%d]", i))
 				if !ok {
 					return
@@ -86,7 +115,11 @@ func genExtraAPI(pkgs map[string]*types.Package) (string, int) {
 					continue
 				}
 				if !isBasic {
-					kinds = append(kinds, "bytes")
+					if strings.HasPrefix(c, "extraStrs(") {
+						kinds = append(kinds, "strs")
+					} else {
+						kinds = append(kinds, "bytes")
+					}
 					continue
 				}
 				switch {
@@ -116,7 +149,7 @@ func genExtraAPI(pkgs map[string]*types.Package) (string, int) {
 			}
 			imports[d] = true
 			n++
-			fmt.Fprintf(&body, "\textraAPI = append(extraAPI, extraFn{Ver: %s, Name: %q, Recv: %d, Params: %#v, Call: func(obj unsafe.Pointer, a []string) ([]any, [][]byte) {\n\t\tvar in [][]byte\n", d, fn.Name(), recvKind, kinds)
+			fmt.Fprintf(&body, "\textraAPI = append(extraAPI, extraFn{Ver: %s, Name: %q, Recv: %d, Params: %#v, Call: func(obj unsafe.Pointer, a []string, objs []unsafe.Pointer) ([]any, [][]byte) {\n\t\tvar in [][]byte\n", d, fn.Name(), recvKind, kinds)
 			if len(res) > 0 {
 				fmt.Fprintf(&body, "\t\t%s := %s(%s)\n\t\treturn []any{%s}, in\n", strings.Join(res, ", "), call, strings.Join(args, ", "), strings.Join(res, ", "))
 			} else {
